@@ -1,3 +1,141 @@
-(* placeholder while the correspondence is being validated *)
-From Cfg Require Import Model.WsWrite Model.WsWriteSpec.
-Theorem C30_placeholder : True. Proof. exact I. Qed.
+(* C30 WebSocket messages round-trip through writer and reader.
+   Property theorems only; proofs live in Proofs/WsWriteA.v .. WsWriteD.v, WsWriteZ.v.
+   Model: Model/WsWrite.v (flushFrame, messageWriter Write/WriteString/ReadFrom, WriteMessage,
+   WriteControl, PreparedMessage, truncWriter).  The decoder on the other end is the STRICT reference
+   decoder of C29 (Model/WsReadSpec.v): decoding without a violation = the wire bytes are valid RFC 6455
+   frames (opcodes, FIN/continuation discipline, minimal lengths, control <= 125, mask per direction). *)
+From Coq Require Import String List NArith Bool.
+From Cfg Require Import Gen.WsConst Model.WsUtf8 Model.WsClose Model.WsFrame Model.WsRead Model.WsReadSpec Model.WsWrite Model.WsWriteSpec
+     Proofs.WsReadB Proofs.WsReadC Proofs.WsWriteA Proofs.WsWriteB Proofs.WsWriteC Proofs.WsWriteD Proofs.WsWriteZ.
+Import ListNotations.
+Open Scope N_scope.
+
+(* ------------------------------------------------------------------ round trip *)
+
+(* For ALL sequences of write operations (WriteMessage, NextWriter + any mix of Write / WriteString /
+   ReadFrom + Close, WriteControl, WritePreparedMessage), ALL write buffer sizes >= 1, ALL masking
+   keys, server and client side, without write compression:
+   the strict RFC decoder, as the peer, reads from the bytes on the wire exactly the messages whose
+   write returned nil - same type, same bytes, same order - a pong per ping, and the close frame
+   last; it finds no protocol violation.
+   op_ok: text messages are UTF-8, messages are shorter than 2^63 bytes, close payloads are valid
+   (what the application must supply); keys_ok: masking keys have 4 bytes. *)
+Theorem C30_roundtrip : forall ok infl cfg ops keys,
+    c_maxFrameHeaderSize < wc_buf cfg -> wc_compress cfg = false ->
+    keys_ok keys -> Forall (op_ok ok) ops ->
+    spec_read (strict ok) (peer_cfg cfg) infl (fst (write_all cfg keys false ops))
+    = close_at_end (ops_events ops (map is_none (snd (write_all cfg keys false ops)))).
+Proof.
+  intros ok infl cfg ops keys Hcap Hnoz Hk Hok.
+  pose proof (roundtrip ok infl cfg Hcap Hnoz ops keys Hk Hok) as R.
+  unfold spec_run, S0, peer in R. unfold spec_read, peer_cfg. rewrite Hnoz. exact R.
+Qed.
+Print Assumptions C30_roundtrip.
+
+(* The same, with the READER MODEL of C29 (the Go reader, proved equal to the reference decoder)
+   on the other end: what it returns and writes back is what was written. *)
+Theorem C30_roundtrip_reader_model : forall cfg rbuf close1 infl ops keys,
+    c_maxFrameHeaderSize < wc_buf cfg -> wc_compress cfg = false -> 125 <= rbuf ->
+    keys_ok keys -> Forall (op_ok is_valid_received_close_code) ops ->
+    map norm_event (read_all (reader_of cfg rbuf close1) infl (fst (write_all cfg keys false ops)))
+    = expected (close_at_end (ops_events ops (map is_none (snd (write_all cfg keys false ops))))).
+Proof. exact model_roundtrip. Qed.
+Print Assumptions C30_roundtrip_reader_model.
+
+(* ------------------------------------------------------------------ frame-level facts *)
+
+(* control frames never exceed 125 payload bytes, through WriteControl and through flushFrame *)
+Theorem C30_control_le_125 : forall cfg keys typ data wire keys',
+    write_control cfg keys typ data = inl (wire, keys') -> N.of_nat (length data) <= 125.
+Proof. exact control_le_125. Qed.
+Print Assumptions C30_control_le_125.
+
+Theorem C30_flush_control_le_125 : forall cfg keys w final extra r,
+    is_control_type (m_type w) = true -> flush_frame cfg keys w final extra = inl r ->
+    final = true /\ N.of_nat (length (m_buf w) + length extra) <= 125.
+Proof. exact flush_control_le_125. Qed.
+Print Assumptions C30_flush_control_le_125.
+
+(* client frames masked, server frames unmasked: the mask bit of every header flushFrame lays out *)
+Theorem C30_mask_dir : forall server b0 len, len < two63 ->
+    exists b1 rest, encode_header server b0 len = b0 :: b1 :: rest /\ b_masked b1 = negb server.
+Proof. exact header_mask_bit. Qed.
+Print Assumptions C30_mask_dir.
+
+(* maskBytes is an involution (byte-wise meaning of the word-at-a-time loop) *)
+Theorem C30_mask_involutive : forall key pos p, xor_mask key pos (xor_mask key pos p) = p.
+Proof. exact xor_mask_invol. Qed.
+Print Assumptions C30_mask_involutive.
+
+(* one frame of flushFrame, decoded (the core lemma: three length layouts, both roles, any key) *)
+Theorem C30_frame_decodes : forall ok infl masked key (fin : bool) op payload rest (frag : option fragst) typ acc total,
+    N.of_nat (length payload) < two63 -> (masked = true -> length key = 4%nat) ->
+    match frag with
+    | None => (op = 1 \/ op = 2) /\ typ = op /\ acc = [] /\ total = 0
+    | Some f => op = 0 /\ f = (typ, false, acc, total)
+    end ->
+    total + N.of_nat (length payload) < two63 ->
+    spec_frame (strict ok) (mkScfg masked false 0 0) infl frag (enc_frame masked key (b0_of op fin) payload ++ rest)
+    = if fin then complete (strict ok) (mkScfg masked false 0 0) infl typ false (acc ++ payload) rest
+      else FCont [] (Some (typ, false, acc ++ payload, total + N.of_nat (length payload))) rest.
+Proof. exact decode_data_frame. Qed.
+Print Assumptions C30_frame_decodes.
+
+(* ------------------------------------------------------------------ extension: write compression *)
+
+(* truncWriter: for every sequence of writes of the flate.Writer, the messageWriter receives the
+   stream without its last four bytes, in order; they stay in the truncWriter. *)
+Theorem C30_trunc_writer : forall zs held ds h,
+    (length held <= 4)%nat -> trunc_all held zs = (ds, h) ->
+    concat ds ++ h = held ++ concat zs /\ length h = Nat.min 4 (length held + length (concat zs)).
+Proof. exact trunc_all_spec. Qed.
+Print Assumptions C30_trunc_writer.
+
+(* PARTIAL for compressed messages.  Proved: when the flate stream ends with a sync flush
+   (00 00 ff ff), the frames carry exactly the stream without that tail (RFC 7692 7.2.1) and
+   flateWriteWrapper.Close finds the tail.  NOT proved in Coq: that the compressed frames (RSV1 on
+   the first one) are decoded and inflated back to the message - that needs compress/flate's
+   correctness and the generalisation of C30_frame_decodes to RSV1; it is checked by the
+   correspondence (real flate, real peer, strict decoder with the driver's inflate table). *)
+Theorem C30_compressed_frames_partial : forall zs body ds h,
+    concat zs = body ++ flate_sync_tail -> trunc_all [] zs = (ds, h) ->
+    concat ds = body /\ h = flate_sync_tail.
+Proof. exact trunc_sync_flush. Qed.
+Print Assumptions C30_compressed_frames_partial.
+
+(* ------------------------------------------------------------------ non-vacuity *)
+
+Definition ex_cfg_srv : wcfg := mkWcfg true 16 false.   (* write buffer of 2 payload bytes *)
+Definition ex_cfg_cli : wcfg := mkWcfg false 16 false.
+Definition ex_ops : list wop :=
+  [OpStream 1 [CWrite [72; 101]; CString [108; 108]; CReadFrom [111]];   (* "Hello" in three pieces *)
+   OpControl 9 [112];
+   OpMessage 2 [1; 2; 3];
+   OpControl 9 (repeat 0 126);                                           (* too long: refused *)
+   OpControl 8 [3; 232];
+   OpMessage 2 [4]].                                                     (* after close: refused *)
+
+Example C30_ex_server_wire :
+  write_all ex_cfg_srv [] false ex_ops
+  = ([1; 2; 72; 101;  0; 2; 108; 108;  128; 1; 111;  137; 1; 112;  130; 3; 1; 2; 3;  136; 2; 3; 232],
+     [None; None; None; Some WeControl; None; Some WeCloseSent]).
+Proof. vm_compute. reflexivity. Qed.
+
+Example C30_ex_ops_ok : Forall (op_ok is_valid_received_close_code) ex_ops /\ keys_ok [[1; 2; 3; 4]; [5; 6; 7; 8]].
+Proof.
+  split; [|repeat constructor].
+  unfold ex_ops. constructor.
+  { split; [left; reflexivity|]. split; [vm_compute; reflexivity|]. intros _. vm_compute. reflexivity. }
+  constructor. { intro H. discriminate. }
+  constructor. { split; [right; reflexivity|]. split; [vm_compute; reflexivity|]. intro H. discriminate. }
+  constructor. { intro H. discriminate. }
+  constructor. { intros _. split; vm_compute; reflexivity. }
+  constructor. { split; [right; reflexivity|]. split; [vm_compute; reflexivity|]. intro H. discriminate. }
+  constructor.
+Qed.
+
+Example C30_ex_decoded :
+  spec_read (strict is_valid_received_close_code) (peer_cfg ex_cfg_cli) (fun _ => None)
+            (fst (write_all ex_cfg_cli [[1; 2; 3; 4]; [5; 6; 7; 8]] false ex_ops))
+  = [SMsg 1 [72; 101; 108; 108; 111]; SPong [112]; SMsg 2 [1; 2; 3]; SEnd (OClosed 1000 [])].
+Proof. vm_compute. reflexivity. Qed.
